@@ -72,8 +72,11 @@ def verify_function(ct, label=None, params=None, observe=None):
         flabel = rep.qualname
         try:
             args = {}
+            ctx.ghost["_args"] = args
+            ctx.ghost["_origin"] = "param"
             for pn, pt in params:
                 args[pn] = pt.fresh(ctx, pn)
+            ctx.ghost["_origin"] = "unknown"
             old = {k: snapshot(interp, v) for k, v in args.items()}
             ad = dict(args)
             ad["old"] = NS(old, "entry value")
